@@ -1,5 +1,5 @@
 // Shared declarations of the array-AD correspondence driver (family `arrayad`, properties C03 and C09).
-// The statement menu is split over drv_arrayad_s1..s9.cpp so that the translation units compile in parallel.
+// The statement menu is split over drv_arrayad_s1..s10.cpp so that the translation units compile in parallel.
 #ifndef VERIF_DRV_ARRAYAD_H
 #define VERIF_DRV_ARRAYAD_H
 #include "spy.h"
@@ -12,9 +12,11 @@ using namespace adept;
 
 typedef FixedArray<double, true, 4> FA4;       // active fixed vector
 typedef FixedArray<double, true, 2, 3> FA23;   // active fixed matrix
+typedef FixedArray<double, true, 2, 3, 4> FA234;     // active fixed rank-3 array (advance_index wraps an inner dimension)
+typedef FixedArray<double, true, 2, 2, 3, 2> FA2232; // active fixed rank-4 array
 
 // kind of pool object
-enum Kind { K_ARR = 0, K_FA4 = 1, K_FA23 = 2, K_SCAL = 3, K_IVEC = 4 };
+enum Kind { K_ARR = 0, K_FA4 = 1, K_FA23 = 2, K_SCAL = 3, K_IVEC = 4, K_FA234 = 5, K_FA2232 = 6 };
 
 struct Obj {
   int kind; int rank; bool active;
@@ -33,6 +35,8 @@ inline adouble& asS(Obj& o) { return *static_cast<adouble*>(o.p); }
 inline intVector& asI(Obj& o) { return *static_cast<intVector*>(o.p); }
 inline FA4& asF4(Obj& o) { return *static_cast<FA4*>(o.p); }
 inline FA23& asF23(Obj& o) { return *static_cast<FA23*>(o.p); }
+inline FA234& asF234(Obj& o) { return *static_cast<FA234*>(o.p); }
+inline FA2232& asF2232(Obj& o) { return *static_cast<FA2232*>(o.p); }
 
 std::string num(double x);
 Obj* get(const std::string& w);                 // handle word -> object or 0
@@ -71,6 +75,7 @@ int exec_s6(const Words& w, Ctx& c);
 int exec_s7(const Words& w, Ctx& c);
 int exec_s8(const Words& w, Ctx& c);
 int exec_s9(const Words& w, Ctx& c);
+int exec_s10(const Words& w, Ctx& c);
 
 template <int R, bool A> void add_root(long h, Array<R, double, A>* a) {
   Obj o; o.kind = K_ARR; o.rank = R; o.active = A; o.p = a; o.root = h;
